@@ -31,11 +31,15 @@ type replayJSON struct {
 	Clock    []int64           `json:"clock"`
 	Schedule []schedStep       `json:"schedule,omitempty"`
 	Observe  map[string]string `json:"predicted_observations,omitempty"`
+	Repeat   int               `json:"repeat,omitempty"` // "impossible": native runs to look for the event
 }
 
 func writeReplay(path, prop string, h harnessInfo, v *Violation, tier string) {
 	r := replayJSON{Property: prop, Harness: h.Name, Dir: h.Dir, Tier: tier, Label: v.Label, Kind: v.Kind, Detail: v.Detail, Stack: v.Stack,
 		Values: v.Model, Schedule: v.Sched, Observe: v.Observe}
+	if v.Kind == "impossible" {
+		r.Repeat = 48
+	}
 	// clock readings in order
 	type kv struct {
 		n int
@@ -195,6 +199,13 @@ func replayNative(repo, verif string, dirFiles map[string][]string, h harnessInf
 		if strings.Contains(out, "VERIF-PANIC") || strings.Contains(out, "\npanic: ") || strings.Contains(out, "fatal error: ") {
 			return true, ""
 		}
+	case "impossible":
+		// the solver's verdict is "for no value"; natively the harness ran Repeat times with the
+		// real sources of randomness: confirmed when the event was never observed
+		if strings.Contains(out, "VERIF-END") && !strings.Contains(out, "VERIF-REACHED "+v.Label+"\n") &&
+			!strings.Contains(out, "VERIF-PANIC") && !strings.Contains(out, "VERIF-ASSERT-FAILED") {
+			return true, ""
+		}
 	case "deadlock":
 		if strings.Contains(out, "VERIF-DEADLOCK") || strings.Contains(out, "all goroutines are asleep") || strings.Contains(out, "test timed out") {
 			return true, ""
@@ -203,14 +214,18 @@ func replayNative(repo, verif string, dirFiles map[string][]string, h harnessInf
 	return false, tail(out, 600)
 }
 
-func replayWitness(repo, verif string, dirFiles map[string][]string, h harnessInfo, path, label string, predicted map[string]uint64) (bool, string) {
+func replayWitness(repo, verif string, dirFiles map[string][]string, h harnessInfo, path, label string, predicted map[string]uint64, knownLabels map[string]bool) (bool, string) {
 	out, _ := nativeRun(repo, verif, dirFiles, h, path)
 	os.WriteFile(strings.TrimSuffix(path, ".json")+".native.log", []byte(out), 0o644)
 	if !strings.Contains(out, "VERIF-END") {
 		return false, "native run did not finish: " + tail(out, 600)
 	}
-	if strings.Contains(out, "VERIF-ASSERT-FAILED") {
-		return false, "assertion failed natively on a witness: " + tail(out, 600)
+	for _, m := range regexp.MustCompile(`VERIF-ASSERT-FAILED (\S+)`).FindAllStringSubmatch(out, -1) {
+		// a recorded known finding of this harness (a race the free-running goroutines may hit) is
+		// not a translation mismatch
+		if !knownLabels[m[1]] {
+			return false, "assertion failed natively on a witness: " + tail(out, 600)
+		}
 	}
 	if strings.Contains(out, "VERIF-PANIC") {
 		return false, "panic natively on a witness: " + tail(out, 800)
